@@ -89,7 +89,7 @@ def dump_real_queue(q, nrx, ncols):
     return nxt, rows
 
 
-def run_real(M, kind, T, seed, dt, safe=False, vol0=1.0, volume_factory=None, qlen=None):
+def run_real(M, kind, T, seed, dt, safe=False, vol0=1.0, volume_factory=None, qlen=None, t0=0.0):
     """Run one real simulator; returns dict(rows, volume, divided, queue)."""
     from bioscrape.simulator import (ModelCSimInterface, SafeModelCSimInterface, SSASimulator, DelaySSASimulator,
                                      VolumeSSASimulator, DelayVolumeSSASimulator, ArrayDelayQueue)
@@ -97,6 +97,8 @@ def run_real(M, kind, T, seed, dt, safe=False, vol0=1.0, volume_factory=None, ql
     from bioscrape.random import py_seed_random
     I = (SafeModelCSimInterface if safe else ModelCSimInterface)(M)
     I.py_set_dt(float(dt))
+    if t0:
+        I.py_set_initial_time(float(t0))
     nrx = I.py_get_num_reactions()
     py_seed_random(int(seed))
     out = {}
